@@ -718,6 +718,21 @@ Section Visit.
   Qed.
 End Visit.
 
+Lemma rewrite_orphans_lok : forall tx loc o p, lok loc -> lok (rewrite_orphans tx loc o p).
+Proof.
+  intros tx loc o p H. unfold rewrite_orphans.
+  destruct (split_last_dot _) as [[parent member]|]; [|exact H]. destruct (str_eqb member star); [exact H|].
+  match goal with |- lok (fold_left ?g ?cs loc) => generalize cs end.
+  intro cs. revert loc H. induction cs as [|c cs IH]; intros loc H; [exact H|]. cbn [fold_left]. apply IH.
+  destruct c; try exact H. destruct (negb _ && _); [now apply rewrite_translations_lok | exact H].
+Qed.
+
+Lemma rewrite_path_lok : forall tx loc o p, lok (fst (rewrite_templates tx loc o p)) -> lok (fst (rewrite_path tx loc o p)).
+Proof.
+  intros tx loc o p H. unfold rewrite_path. destruct (rewrite_templates tx loc o p) as [loc1 o1]. cbn [fst] in *.
+  now apply rewrite_orphans_lok.
+Qed.
+
 (* ---- Migrate13_3: the catalogue's paths stay clear of what validity looks at --------------------------------------------- *)
 
 Definition protected0 : list str := [k_type; k_category; k_result_name; k_template; k_template_variables].
@@ -873,11 +888,12 @@ Section Rewrite13_3.
         rewrite H, Ht. cbn. now rewrite orb_true_r. }
     assert (Hfold : forall ps acc, (forall p, In p ps -> In p (catalog_paths catalog_actions (type_of a))) ->
               lok (fst acc) -> action_rel srr (snd acc) a ->
-              lok (fst (fold_left (fun (acc : option obj * obj) p => rewrite_templates tx (fst acc) (snd acc) p) ps acc))
-              /\ action_rel srr (snd (fold_left (fun (acc : option obj * obj) p => rewrite_templates tx (fst acc) (snd acc) p) ps acc)) a).
+              lok (fst (fold_left (fun (acc : option obj * obj) p => rewrite_path tx (fst acc) (snd acc) p) ps acc))
+              /\ action_rel srr (snd (fold_left (fun (acc : option obj * obj) p => rewrite_path tx (fst acc) (snd acc) p) ps acc)) a).
     { induction ps as [|p ps IH]; intros [loc0 a0] Hin Hl Hr; [auto|]. cbn [fold_left fst snd] in *.
       destruct (rewrite_templates_action srr loc0 a0 p Hl (Hpaths p (Hin p (or_introl eq_refl)))) as [H1 H2].
-      apply IH; [intros q Hq; apply Hin; now right | exact H1 | eapply action_rel_trans; eassumption]. }
+      apply IH; [intros q Hq; apply Hin; now right | now apply rewrite_path_lok
+                | rewrite rewrite_path_snd; eapply action_rel_trans; eassumption]. }
     destruct (Hfold (catalog_paths catalog_actions (type_of a)) (snd st, a)) as [H1 H2];
       [auto | exact Hst | apply action_rel_refl |].
     destruct (fold_left _ (catalog_paths catalog_actions (type_of a)) (snd st, a)) as [loc' a']. cbn [fst snd] in *.
@@ -936,11 +952,12 @@ Section Router13_3.
       exact (catalog_paths_row catalog_routers (type_of r) p (fun _ => router_steps_ok) Hc Hp). }
     assert (Hfold : forall ps acc, (forall p, In p ps -> In p (catalog_paths catalog_routers (type_of r))) ->
               lok (fst acc) -> same_at router_keys (snd acc) r ->
-              lok (fst (fold_left (fun (acc : option obj * obj) p => rewrite_templates tx (fst acc) (snd acc) p) ps acc))
-              /\ same_at router_keys (snd (fold_left (fun (acc : option obj * obj) p => rewrite_templates tx (fst acc) (snd acc) p) ps acc)) r).
+              lok (fst (fold_left (fun (acc : option obj * obj) p => rewrite_path tx (fst acc) (snd acc) p) ps acc))
+              /\ same_at router_keys (snd (fold_left (fun (acc : option obj * obj) p => rewrite_path tx (fst acc) (snd acc) p) ps acc)) r).
     { induction ps as [|p ps IH]; intros [loc0 r0] Hin Hl Hs; [auto|]. cbn [fold_left fst snd] in *.
       destruct (rewrite_templates_router loc0 r0 p Hl (Hpaths p (Hin p (or_introl eq_refl)))) as [H1 H2].
-      apply IH; [intros q Hq; apply Hin; now right | exact H1 | eapply same_at_trans; eassumption]. }
+      apply IH; [intros q Hq; apply Hin; now right | now apply rewrite_path_lok
+                | rewrite rewrite_path_snd; eapply same_at_trans; eassumption]. }
     destruct (Hfold (catalog_paths catalog_routers (type_of r)) (snd st, r)) as [H1 H2];
       [auto | exact Hst | apply same_at_refl |].
     destruct (fold_left _ (catalog_paths catalog_routers (type_of r)) (snd st, r)) as [loc' r']. cbn [fst snd] in *.
